@@ -76,16 +76,32 @@ Definition exo_skip (w : name) (b : bool) (e : bool) : bool * bool :=
   | _ => (false, e)
   end.
 
-(* ---- layer 3: StateModel ---- *)
+(* ---- layer 3: StateModel ----
+   Two DIFFERENT member functions read the exogenous pointer:
+     have_exogenous_model()  total, noexcept: is the pointer non-null
+     exogenous_model()       partial: returns the model, THROWS when the pointer is null
+   The dispatch code is safe only because every call of the partial accessor sits behind a
+   test of the total one.  There are three such tests ("guards"); the dispatch functions are
+   written once, parameterised by which guards are present, so that the theorems about the
+   code as it is (all three present) visibly depend on them, and the snapshot before
+   "fix: skip commands no longer throw when no exogenous model is attached" (none present)
+   is an instance of the same definitions (C13_Regress). *)
 Definition have_exo (f : flags) : bool := match f_exo f with Some _ => true | None => false end.
 (* StateModel::exogenous_model(): None stands for the throw *)
 Definition exo_model (f : flags) : option bool := f_exo f.
 
-Definition sm_skip (w : name) (b : bool) (f : flags) : res * flags :=
+Record guards := mkGuards {
+  g_sm : bool;      (* StateModel::skip, "exogenous":       if (!have_exogenous_model()) return false;      StateModel.cpp:20-21 *)
+  g_state : bool;   (* Prediction::skip, "state":           ... & (!have_exogenous_model() || ...)          GaussianPrediction.cpp:42, PFPrediction.cpp:41 *)
+  g_exo : bool      (* Prediction::skip, "exogenous":       if (!have_exogenous_model()) return false;      GaussianPrediction.cpp:46-47, PFPrediction.cpp:45-46 *)
+}.
+Definition guards_now := mkGuards true true true.
+
+Definition sm_skip_g (G : guards) (w : name) (b : bool) (f : flags) : res * flags :=
   match w with
   | NState => (Ok true, set_state b f)
   | NExogenous =>
-      if negb (have_exo f) then (Ok false, f)
+      if g_sm G && negb (have_exo f) then (Ok false, f)
       else match exo_model f with
            | None => (Throws, f)
            | Some e => (Ok true, set_exo (snd (exo_skip w b e)) f)   (* the callee's result is ignored *)
@@ -94,22 +110,22 @@ Definition sm_skip (w : name) (b : bool) (f : flags) : res * flags :=
   end.
 
 (* ---- layer 2: GaussianPrediction::skip = PFPrediction::skip ---- *)
-Definition pred_skip (w : name) (b : bool) (f : flags) : res * flags :=
+Definition pred_skip_g (G : guards) (w : name) (b : bool) (f : flags) : res * flags :=
   match w with
   | NPrediction =>
-      bind (sm_skip NState b (set_pred b f)) (fun _ f2 =>
-      bind (sm_skip NExogenous b f2) (fun _ f3 => (Ok true, f3)))
+      bind (sm_skip_g G NState b (set_pred b f)) (fun _ f2 =>
+      bind (sm_skip_g G NExogenous b f2) (fun _ f3 => (Ok true, f3)))
   | NState =>
-      bind (sm_skip NState b f) (fun _ f1 =>
+      bind (sm_skip_g G NState b f) (fun _ f1 =>
         (* skip_ = sm.is_skipping() & (!sm.have_exogenous_model() || sm.exogenous_model().is_skipping()) *)
-        if negb (have_exo f1) then (Ok true, set_pred (f_state f1 && true) f1)
+        if g_state G && negb (have_exo f1) then (Ok true, set_pred (f_state f1 && true) f1)
         else match exo_model f1 with
              | None => (Throws, f1)
              | Some e => (Ok true, set_pred (f_state f1 && e) f1)
              end)
   | NExogenous =>
-      if negb (have_exo f) then (Ok false, f)
-      else bind (sm_skip NExogenous b f) (fun _ f1 =>
+      if g_exo G && negb (have_exo f) then (Ok false, f)
+      else bind (sm_skip_g G NExogenous b f) (fun _ f1 =>
              match exo_model f1 with
              | None => (Throws, f1)
              | Some e => (Ok true, set_pred (f_state f1 && e) f1)
@@ -121,15 +137,20 @@ Definition pred_skip (w : name) (b : bool) (f : flags) : res * flags :=
 Definition corr_skip (b : bool) (f : flags) : res * flags := (Ok true, set_corr b f).
 
 (* ---- layer 1: GaussianFilter::skip = ParticleFilter::skip ---- *)
-Definition filter_skip (w : name) (b : bool) (f : flags) : res * flags :=
+Definition filter_skip_g (G : guards) (w : name) (b : bool) (f : flags) : res * flags :=
   match w with
-  | NPrediction | NState | NExogenous => pred_skip w b f
+  | NPrediction | NState | NExogenous => pred_skip_g G w b f
   | NCorrection => corr_skip b f
   | NAll =>
-      bind (pred_skip NPrediction b f) (fun r1 f1 =>
+      bind (pred_skip_g G NPrediction b f) (fun r1 f1 =>
       bind (corr_skip b f1) (fun r2 f2 => (Ok (true && r1 && r2), f2)))
   | NOther => (Ok false, f)
   end.
+
+(* the code as it is now *)
+Definition sm_skip := sm_skip_g guards_now.
+Definition pred_skip := pred_skip_g guards_now.
+Definition filter_skip := filter_skip_g guards_now.
 
 (* a command word *)
 Definition cmd := (name * bool)%type.
@@ -162,6 +183,19 @@ Variable B : Type.    (* beliefs: Gaussian mixtures or particle sets *)
    kind of step, what propagate does, input, previous content of the output object *)
 Variable pstep : kind -> prop_mode -> B -> B -> B.
 Variable cstep : kind -> B -> B -> B.
+(* Output objects are in-out and may have ANY shape on entry.  A whole-object assignment
+   (pred_state = prev_state on objects of their dynamic type) makes the output equal to the input
+   whatever its previous shape.  GPFPrediction::predictStep is different: the wrapped Gaussian
+   prediction sees the particle sets as GaussianMixture&, so its "pred_state = prev_state" is a
+   SLICED assignment (mean, covariance, weight and the shape fields; not ParticleSet::state_), after
+   which "pred.state() = prev.state()" writes through an Eigen::Ref that cannot resize.  With an
+   output object of the input's shape the result is the input; otherwise it is [gpf_sliced prev old]
+   (an inconsistent object: undefined behaviour in NDEBUG builds, Eigen assertion otherwise). *)
+Variable same_shape : B -> B -> bool.
+Variable gpf_sliced : B -> B -> B.
+
+Definition gpf_inner_identity (prev old : B) : B :=
+  if same_shape prev old then prev else gpf_sliced prev old.
 
 (* KFPrediction / UKFPrediction / DrawParticles / GPFPrediction ::predictStep *)
 Definition predict_step (k : kind) (f : flags) (prev old : B) : B :=
@@ -170,11 +204,11 @@ Definition predict_step (k : kind) (f : flags) (prev old : B) : B :=
   | Boot => pstep k (prop_mode_of f) prev old
   | GPF =>
       (* gaussian_prediction_->predict(prev, pred); pred.weight() = prev.weight(); pred.state() = prev.state() *)
-      if negb (f_inner f) then (if f_state f then prev else pstep k (prop_mode_of f) prev old)
-      else prev
+      if negb (f_inner f) then (if f_state f then gpf_inner_identity prev old else pstep k (prop_mode_of f) prev old)
+      else gpf_inner_identity prev old
   end.
 
-(* GaussianPrediction::predict / PFPrediction::predict *)
+(* GaussianPrediction::predict / PFPrediction::predict: a whole-object assignment when skipped *)
 Definition predict (k : kind) (f : flags) (prev old : B) : B :=
   if negb (f_pred f) then predict_step k f prev old else prev.
 
@@ -193,19 +227,22 @@ Definition exo_names := [NPrediction; NExogenous; NAll].
 Definition corr_names := [NCorrection; NAll].
 
 (* observable instantiation used by the correspondence check: a belief is a
-   marker saying which computation produced it *)
-Inductive outcome := OInput | OOld | ORan (k : kind) (m : prop_mode) | OCorrected (k : kind).
-Definition obs_predict (k : kind) (f : flags) : outcome :=
-  predict outcome (fun k m _ _ => ORan k m) k f OInput OOld.
-Definition obs_correct (k : kind) (f : flags) : outcome :=
-  correct outcome (fun k _ _ => OCorrected k) k f OInput OOld.
+   marker saying which computation produced it; the output object handed in has
+   either the input's shape (OOld) or another one (OOldOther) *)
+Inductive outcome := OInput | OOld | OOldOther | ORan (k : kind) (m : prop_mode) | OCorrected (k : kind) | OSliced.
+Definition same_shape_o (_ old : outcome) : bool := match old with OOldOther => false | _ => true end.
+Definition obs_predict (k : kind) (f : flags) (other_shape : bool) : outcome :=
+  predict outcome (fun k m _ _ => ORan k m) same_shape_o (fun _ _ => OSliced) k f OInput (if other_shape then OOldOther else OOld).
+Definition obs_correct (k : kind) (f : flags) (other_shape : bool) : outcome :=
+  correct outcome (fun k _ _ => OCorrected k) k f OInput (if other_shape then OOldOther else OOld).
 
-Inductive op := OpSkip (w : name) (b : bool) | OpPredict | OpCorrect.
+(* OpPredict true / OpCorrect true: the output object has a different shape than the input *)
+Inductive op := OpSkip (w : name) (b : bool) | OpPredict (other_shape : bool) | OpCorrect (other_shape : bool).
 Inductive obs := ObsSkip (r : res) (f : flags) | ObsStep (o : outcome).
 Fixpoint run_ops (k : kind) (ops : list op) (f : flags) : list obs :=
   match ops with
   | [] => []
   | OpSkip w b :: r => let x := filter_skip w b f in ObsSkip (fst x) (snd x) :: run_ops k r (snd x)
-  | OpPredict :: r => ObsStep (obs_predict k f) :: run_ops k r f
-  | OpCorrect :: r => ObsStep (obs_correct k f) :: run_ops k r f
+  | OpPredict x :: r => ObsStep (obs_predict k f x) :: run_ops k r f
+  | OpCorrect x :: r => ObsStep (obs_correct k f x) :: run_ops k r f
   end.
